@@ -507,7 +507,38 @@ def rule_r6(p, res):
     r.check(len(outer) == 1 and norm(outer[0].iter) == "range(len(adjacency_list))", f, f.node, "every vertex must be tried as a start (disconnected graphs)")
 
 
-RULES = [rule_r1, rule_r2, rule_r3, rule_r4, rule_r5, rule_r6]
+def rule_r7(p, res):
+    r = res.rule("C14.R7", "predefined lattices: the closing edge of a chain runs last -> first; grid strides follow the row-major vertex numbering")
+    f = p.func("menpo.shape.graph_predefined._get_chain_graph_edges")
+    r.instance(f)
+    d = Defs(f.node)
+    vl, closed = f.params[0], f.params[1]
+    g = cfgmod.build(f.node)
+    apps = [k for k in calls_in(f.node) if isinstance(k.func, ast.Attribute) and k.func.attr == "append" and any(norm(t) in (closed,) and pol for t, pol in g.guards(stmt_of(k)))]
+    need(len(apps) == 1, "C14.R7: closing edge of the chain not found")
+    e = apps[0].args[0]
+    if isinstance(e, (ast.List, ast.Tuple)):
+        elts = []
+        for x in e.elts:
+            if isinstance(x, ast.Name):
+                rd = [v for kd, v, st in cfgmod.reaching_defs(g, d, x.id, stmt_of(apps[0])) if kd == "assign"]
+                x = rd[0] if len(rd) == 1 else x
+            elts.append(x)
+        e = ast.List(elts=elts, ctx=ast.Load())
+    r.check(norm(e) in ("[%s[-1], %s[0]]" % (vl, vl), "(%s[-1], %s[0])" % (vl, vl)), f, apps[0],
+            "the closing edge of a closed chain must run from the last vertex to the first (found `%s`): reversed it breaks the directed ring" % norm(e))
+    sg = p.func("menpo.shape.graph_predefined.stencil_grid")
+    r.instance(sg)
+    ds = Defs(sg.node)
+    st = ds.single("strides")
+    need(st is not None, "C14.R7: strides of stencil_grid not found")
+    shape = sg.params[1]
+    txt = norm(st)
+    r.check(("reversed(%s)" % shape) in txt or ("%s[::-1]" % shape) in txt, sg, st, "grid strides must be the cumulative products of the *reversed* shape (row-major numbering); found `%s`: on a non-square "
+            "grid vertex k is then linked to k + n_rows instead of k + n_cols" % txt)
+
+
+RULES = [rule_r1, rule_r2, rule_r3, rule_r4, rule_r5, rule_r6, rule_r7]
 
 WITNESSES = [
     Witness("C14.W1", "menpo/shape/graph.py", "DirectedGraph.parents", "self.adjacency_matrix[:, vertex].nonzero()[0]", "self.adjacency_matrix[vertex, :].nonzero()[1]",
@@ -545,4 +576,8 @@ WITNESSES += [
 WITNESSES += [
     Witness("C14.W15", "menpo/shape/graph.py", "_has_cycles", "            return True\n    else:\n        return False", "            return True\n        else:\n            return False", rule="C14.R6", construct="_has_cycles", note="seeded change R4-C14-A"),
     Witness("C14.W16", "menpo/shape/graph.py", "Tree.leaves", "range(self.n_vertices)", "range(1, self.n_vertices)", rule="C14.R5", construct="Tree.leaves", note="seeded change R4-C14-B"),
+]
+
+WITNESSES += [
+    Witness("C14.W17", "menpo/shape/graph_predefined.py", "stencil_grid", "list(reversed(shape))", "list(shape)", rule="C14.R7", construct="stencil_grid", note="seeded change R5-C14-C"),
 ]
